@@ -488,7 +488,9 @@ static Target t = {
     "C03",
     "random: decoder (5) x input (raw bytes | boundary alphabet | 1-4 reference-encoded frames with 0-2 byte mutations/truncation) x scratch prefix "
     "(estimate | size the decoder asks for | 0..8) x 1-4 iovecs (slices of one block or separate exact-size heap blocks, zero-length pieces) x schedule "
-    "(whole | byte-wise | drawn steps with size queries and peeks interleaved). exhaustive: all strings of length <= 5 (quick) / <= 6 (thorough) over "
+    "(whole | byte-wise | drawn steps with size queries and peeks interleaved); 1 case in 8 at queue level: the same inputs pushed in drawn pieces into a decode_queue and read with "
+    "mpt_queue_recv / mpt_queue_peek / mpt_message_get, growth on MissingBuffer, retries after errors. oracle: safety invariants after every call, delivered messages == reference decoder on the "
+    "leading well-formed frames, after an error only reference messages of later frames, no pending message on 'incomplete'. exhaustive: all strings of length <= 5 (quick) / <= 6 (thorough) over "
     "{00,01,02,1F,20,DE,DF,E0,E1,FE,FF} x 5 decoders x {whole, byte-wise, three separate blocks}. non-trivial: the decoder returned at least two "
     "different codes during the case or delivered a message longer than one block (all enumerated cases count); distinct by hash of the draw sequence.",
     run,
